@@ -6,6 +6,7 @@ mod c10;
 mod c17;
 mod c18;
 mod c19;
+mod c20;
 mod cssgen;
 mod cssmodel;
 mod common;
@@ -32,6 +33,8 @@ fn main() {
         "c17" => c17::explore(thorough, &out),
         "c18" => c18::explore(thorough, &out),
         "c19" => c19::explore(thorough, &out),
+        "c20" => c20::explore(thorough, &out),
+        "c20-child" => c20::child(thorough),
         "replay" => {
             let engine = args.get(2).expect("engine");
             let file = args.get(3).expect("file");
@@ -44,6 +47,7 @@ fn main() {
                 "c17" => c17::replay(&v),
                 "c18" => c18::replay(&v),
                 "c19" => c19::replay(&v),
+                "c20" => c20::replay(&v),
                 _ => panic!("unknown engine"),
             };
             println!("{}", r);
